@@ -219,7 +219,10 @@ def produced_by_log(w):
             if core_dsl.is_gen(prog):
                 continue
             acts, end = terminal(prog)
-            if any(a[0] in ('rmH', 'stopMgr') for a in acts) or end in ('sysExit', 'kbdInt'):
+            # a handler that removes ITSELF (all names) is installed when it runs, so the removal cannot fail and the rest
+            # of its body is read as usual; any other removal may raise inside the handler and is left to the correspondence
+            if any((a[0] == 'rmH' and not (a[1] == h and a[2] is None)) or a[0] == 'stopMgr' for a in acts) \
+                    or end in ('sysExit', 'kbdInt'):
                 unsupported.add(ev)
             if end == 'raise':
                 raises[ev] = raises.get(ev, 0) + 1
